@@ -56,6 +56,35 @@ func runHammer(r *mon.Run, id string, rounds int, build func(rng *gen.Rng, w *mo
 				return
 			}
 		}
+		// the same operations from fresh goroutines at different STACK DEPTHS: a goroutine starts
+		// with a small stack that is moved when it grows; code that keeps the address of something
+		// on its own stack in a form the runtime does not update reads the abandoned copy if the
+		// growth happens at the wrong moment - which depends on nothing but how deep the caller is
+		{
+			nOps := len(hot)
+			if nOps > 10 {
+				nOps = 10
+			}
+			depths := 0
+			for oi := 0; oi < nOps; oi++ {
+				op := &hot[(oi*7+round)%len(hot)]
+				for d := 0; d < 72; d++ {
+					var got []byte
+					done := make(chan struct{})
+					go func() {
+						defer close(done)
+						got = atStackDepth(d*3+(oi%3), op.run)
+					}()
+					<-done
+					depths++
+					if !bytes.Equal(got, op.want) {
+						w.Fail(lc+"/hammer/stack-depth/"+op.name, fmt.Sprintf("%s called from a fresh goroutine %d frames (about %d bytes) deep = %s, expected %s", op.name, d*3+(oi%3), (d*3+(oi%3))*stackFrameBytes, hx(got), hx(op.want)))
+						return
+					}
+				}
+			}
+			w.ClassN(lc+":hammer:calls-at-varied-stack-depth", int64(depths))
+		}
 		G := r.N(16, 32)
 		iters := r.N(3000, 30000)
 		// bulk churn: very many cheap, UNCHECKED calls on distinct inputs (derived from a counter),
@@ -700,4 +729,23 @@ func bulkCompressed(salt []byte, k int) []byte {
 	binary.LittleEndian.PutUint64(in[16:], uint64(k))
 	h := sha256.Sum256(in[:])
 	return append([]byte{byte(2 + k&1)}, h[:]...)
+}
+
+const stackFrameBytes = 112
+
+// atStackDepth calls f with n frames of about stackFrameBytes each below it.
+//
+//go:noinline
+func atStackDepth(n int, f func() []byte) []byte {
+	var pad [64]byte
+	pad[n%64] = byte(n)
+	if n <= 0 {
+		out := f()
+		return append(out, pad[1:1]...)
+	}
+	out := atStackDepth(n-1, f)
+	if pad[(n+1)%64] == 255 {
+		out = append(out, pad[0])
+	}
+	return out
 }
